@@ -370,9 +370,9 @@ class RunLengthArray(NPSIndexable, np.lib.mixins.NDArrayOperatorsMixin):
             return self.__class__(self._events, ufunc(self._values))
         assert len(inputs) == 2, f"Only unary and binary operations supported for runlengtharray {len(inputs)}"
 
-        if isinstance(inputs[1], (Number, np.generic)):
+        if isinstance(inputs[1], (Number, np.generic)) or (isinstance(inputs[1], np.ndarray) and inputs[1].ndim == 0):
             return self.__class__(self._events, ufunc(self._values, inputs[1]))
-        elif isinstance(inputs[0], (Number, np.generic)):
+        elif isinstance(inputs[0], (Number, np.generic)) or (isinstance(inputs[0], np.ndarray) and inputs[0].ndim == 0):
             return self.__class__(self._events, ufunc(inputs[0], self._values))
         return self._apply_binary_func(*inputs, ufunc)
 
